@@ -397,7 +397,7 @@ func runReal(env *realEnv, sc realScen, r *mrand.Rand, w *ndWriter, pw *ndWriter
 				}
 				resCh <- sr
 			}()
-			ctx, cancel := context.WithTimeout(context.Background(), 10*time.Second)
+			ctx, cancel := context.WithTimeout(context.Background(), watchdogLimit())
 			defer cancel()
 			conn, err := ech.NewConn(ctx, below, ech.WithKeys(keys))
 			if err != nil {
@@ -414,7 +414,7 @@ func runReal(env *realEnv, sc realScen, r *mrand.Rand, w *ndWriter, pw *ndWriter
 				cfg = bc
 			}
 			srv := tls.Server(lg, cfg)
-			srv.SetDeadline(time.Now().Add(10 * time.Second))
+			srv.SetDeadline(time.Now().Add(watchdogLimit()))
 			if err := srv.Handshake(); err != nil {
 				sr.err = "backend handshake: " + err.Error()
 				srv.Close()
@@ -432,7 +432,7 @@ func runReal(env *realEnv, sc realScen, r *mrand.Rand, w *ndWriter, pw *ndWriter
 			srv.Close()
 		}()
 		cl := tls.Client(tap, cc)
-		cl.SetDeadline(time.Now().Add(10 * time.Second))
+		cl.SetDeadline(time.Now().Add(watchdogLimit()))
 		herr := cl.Handshake()
 		var echo string
 		if herr == nil {
